@@ -114,9 +114,12 @@ def c02(run):
                       "map:kva32:max:16:250:iter", "map:k1v4:onegroup:12:300:wide", "map:k3v4:collide:14:250:wide", "map:k4v4:zero:14:300:fault:fault=25"]),
          ("lay_set", ["set:k1:collide:30:400:set", "set:k2:zero:14:250:set", "set:k3:fewpos:20:250:set", "set:k5:max:14:200:set",
                       "set:k6:collide:20:250:setalg", "set:k7:onegroup:12:200:set", "set:k8t:collide:20:400:setalg:" + F]),
-         ("lay_table", ["table:te24:collide:20:400:table:" + F, "table:te208:zero:12:250:table", "table:tea64:fewpos:16:250:table", "table:t1:collide:30:300:table"])],
+         ("lay_table", ["table:te24:collide:20:400:table:" + F, "table:te208:zero:12:250:table", "table:tea64:fewpos:16:250:table", "table:t1:collide:30:300:table"]),
+         ("zst", ["table:t0:zero:1:1500:tablezst", "table:t0:max:1:600:tablezst"], {"module": "HbZstTrace.tla", "cfg": "HbZstTrace.cfg"})],
         [("lay2", ["map:kv24:collide:24:3000:wide:" + F, "map:k5v4:zero:14:2000:wide", "set:k8:mixed:40:2000:set", "table:te32:lowbit:14:2000:table:" + F]),
-         ("layg", ["map:kv16:collide:24:2000:wide:" + F, "map:kva64:zero:14:1000:iter", "set:k3:collide:20:1000:set", "table:te24:zero:12:1500:table"], G)],
+         ("layg", ["map:kv16:collide:24:2000:wide:" + F, "map:kva64:zero:14:1000:iter", "set:k3:collide:20:1000:set", "table:te24:zero:12:1500:table"], G),
+         ("zstg", ["table:t0:zero:1:3000:tablezst"], {"backend": "generic", "module": "HbZstTrace.tla", "cfg": "HbZstTrace.cfg"}),
+         ("zst2", ["table:t0:zero:1:6000:tablezst"], {"module": "HbZstTrace.tla", "cfg": "HbZstTrace.cfg"})],
         "layout matrix (element sizes 1..208, alignments 1..64, with / without drop glue) x collection kinds x hash plans incl. all-colliding, with leaked "
         "drains and injected callback panics; the structural invariant (exactly the preconditions of the unsafe blocks) is evaluated on every observed state; "
         "checking allocator (red zones, layout match), element registry and debug assertions observe the implementation side", corpus=True, fault_corpus=True)
